@@ -566,6 +566,19 @@ func (a *Arith) lenLin(x ssa.Value, d int) Lin {
 				return a.lenLin(y.X, d+1)
 			}
 		}
+		// a slice of a whole array (make([]T, n) with a constant n is `new [n]T` sliced): high - low
+		if pt, isPtr := y.X.Type().Underlying().(*types.Pointer); isPtr {
+			if at, isArr := pt.Elem().Underlying().(*types.Array); isArr {
+				hi := linConst(at.Len())
+				if y.High != nil {
+					hi = a.linD(y.High, d+1)
+				}
+				if y.Low == nil {
+					return hi
+				}
+				return hi.add(a.linD(y.Low, d+1), -1)
+			}
+		}
 	case *ssa.Const:
 		if y.Value != nil && y.Value.Kind() == constant.String {
 			return linConst(int64(len(constant.StringVal(y.Value))))
@@ -573,6 +586,38 @@ func (a *Arith) lenLin(x ssa.Value, d int) Lin {
 		if y.Value == nil {
 			if _, isSl := y.Type().Underlying().(*types.Slice); isSl {
 				return linConst(0) // len(nil slice)
+			}
+		}
+	case *ssa.UnOp:
+		// a field read back right after it was stored in the same block (`p.F = make([]T, 1); p.F[0] = x`): the stored
+		// slice — nothing between the store and the load may write memory or call
+		if y.Op == token.MUL && d < 6 {
+			if fa, isFA := y.X.(*ssa.FieldAddr); isFA {
+				blk := y.Block()
+				var stored ssa.Value
+				for _, in := range blk.Instrs {
+					if in == ssa.Instruction(y) {
+						break
+					}
+					switch z := in.(type) {
+					case *ssa.Store:
+						if sfa, ok := z.Addr.(*ssa.FieldAddr); ok && sfa.X == fa.X && sfa.Field == fa.Field {
+							stored = z.Val
+						} else if _, isLocal := z.Addr.(*ssa.Alloc); !isLocal {
+							if ofa, ok := z.Addr.(*ssa.FieldAddr); !ok || ofa.Field == fa.Field {
+								stored = nil
+							}
+						}
+					case ssa.CallInstruction:
+						if _, isBuiltin := z.Common().Value.(*ssa.Builtin); !isBuiltin {
+							stored = nil
+						}
+					case *ssa.MapUpdate:
+					}
+				}
+				if stored != nil {
+					return a.lenLin(stored, d+1)
+				}
 			}
 		}
 	case *ssa.Call:
@@ -1675,6 +1720,12 @@ func (m *Model) indexSummary(fn *ssa.Function) (int, bool) {
 				continue
 			}
 			n++
+			// the library's own index search over this very slice: -1 or an index into it
+			if lc, isLC := v.(*ssa.Call); isLC && lc.Call.StaticCallee() != nil && len(lc.Call.Args) >= 1 && lc.Call.Args[0] == ssa.Value(p) {
+				if name := fnFullName(lc.Call.StaticCallee()); strings.HasPrefix(name, "slices.IndexFunc") || strings.HasPrefix(name, "slices.Index[") || name == "slices.Index" {
+					continue
+				}
+			}
 			pt := pointOf(ret)
 			l := a.lin(v)
 			if !(a.ProveValLE(l.scale(-1), 0, pt) && a.ProveValLE(l.add(a.lenLin(p, 0), -1), -1, pt)) {
